@@ -49,7 +49,10 @@ def _matches_pattern_directly(rule_id: str, pattern: str) -> bool:
 
     if pattern_lower.endswith("*"):
         prefix = pattern_lower[:-1]
-        return rule_id_lower.startswith(prefix)
+        # "linter.*" also covers a linter whose single rule id is just "linter"
+        return rule_id_lower.startswith(prefix) or (
+            prefix.endswith(".") and rule_id_lower == prefix[:-1]
+        )
 
     if rule_id_lower == pattern_lower:
         return True
